@@ -77,7 +77,7 @@ func wideQueries(u *xuniverse) []*query {
 		add("ServicesJoined", at, func(st *state.Store, ws memdb.WatchSet) (uint64, any, error) { return x3(st.Services(ws, em, peer, true)) })
 		add("ServiceList", at, func(st *state.Store, ws memdb.WatchSet) (uint64, any, error) { return x3(st.ServiceList(ws, nil, peer)) })
 		add("NodeDump", at, func(st *state.Store, ws memdb.WatchSet) (uint64, any, error) { return x3(st.NodeDump(ws, nil, peer)) })
-		add("ServiceDump", at, func(st *state.Store, ws memdb.WatchSet) (uint64, any, error) { return x3(st.ServiceDump(ws, "", false, nil, peer)) })
+		add("ServiceDump", at, func(st *state.Store, ws memdb.WatchSet) (uint64, any, error) { return x3(st.ServiceDump(ws, "", false, nil, peer)) }).Peer = peer
 		for _, s := range []string{"any", "passing", "critical"} {
 			s := s
 			add("ChecksInState", s+at, func(st *state.Store, ws memdb.WatchSet) (uint64, any, error) { return x3(st.ChecksInState(ws, s, nil, peer)) })
@@ -103,13 +103,16 @@ func wideQueries(u *xuniverse) []*query {
 			add("CheckServiceTagNodes", s+",v1"+at, func(st *state.Store, ws memdb.WatchSet) (uint64, any, error) {
 				return x3(st.CheckServiceTagNodes(ws, s, []string{"v1"}, nil, peer))
 			}).Service = s
+			for _, q := range qs[len(qs)-6:] {
+				q.Peer = peer
+			}
 			add("ServiceChecks", s+at, func(st *state.Store, ws memdb.WatchSet) (uint64, any, error) { return x3(st.ServiceChecks(ws, s, nil, peer)) }).Service = s
 		}
 	}
 	// node lookups by ID
 	for _, id := range u.nodeIDs[:2] {
 		id := id
-		add("NodeServicesByID", id, func(st *state.Store, ws memdb.WatchSet) (uint64, any, error) { return x3(st.NodeServices(ws, id, nil, "")) })
+		add("NodeServicesByID", id, func(st *state.Store, ws memdb.WatchSet) (uint64, any, error) { return x3(st.NodeServices(ws, id, nil, "")) }).Node = id
 	}
 	for _, n := range u.nodeNames {
 		n := n
@@ -137,7 +140,13 @@ func wideQueries(u *xuniverse) []*query {
 			return x3(st.ServiceGateways(ws, s, structs.ServiceKindTerminatingGateway, *em))
 		}).Service = s
 		add("ServiceTopology", s, func(st *state.Store, ws memdb.WatchSet) (uint64, any, error) {
-			return x3(st.ServiceTopology(ws, "dc1", s, structs.ServiceKindTypical, true, em))
+			idx, t, err := st.ServiceTopology(ws, "dc1", s, structs.ServiceKindTypical, true, em)
+			if err != nil || t == nil {
+				return idx, t, err
+			}
+			// the instance lists are built by ranging over Go maps
+			return idx, []any{canonSorted(t.Upstreams), canonSorted(t.Downstreams), t.UpstreamDecisions, t.DownstreamDecisions, t.MetricsProtocol,
+				t.TransparentProxy, t.UpstreamSources, t.DownstreamSources}, nil
 		}).Service = s
 	}
 	add("VirtualIPsForAllImportedServices", "", func(st *state.Store, ws memdb.WatchSet) (uint64, any, error) {
@@ -186,8 +195,8 @@ func wideQueries(u *xuniverse) []*query {
 		})
 	}
 	add("Intentions", "", func(st *state.Store, ws memdb.WatchSet) (uint64, any, error) {
-		idx, ixns, fromCE, err := st.Intentions(ws, nil)
-		return idx, []any{ixns, fromCE}, err
+		idx, ixns, _, err := st.Intentions(ws, nil)
+		return idx, ixns, err
 	})
 	for _, id := range u.ixnIDs {
 		id := id
